@@ -175,6 +175,17 @@ Proof.
 Qed.
 Print Assumptions C07_trace_support.
 
+(* re-tagging (Mesh.with_boundaries / with_subdomains, shape re-checked by ast): a name defined again denotes the NEW set, every other
+   name keeps its set; so after any history of definitions a tag name selects what its LAST definition says — the name, the index
+   array and the predicate it was last defined by denote the same entities *)
+Theorem C07_retagging_last_definition_wins :
+  (forall old new k, tag_lookup (with_tags old new) k
+                     = match tag_lookup new k with Some v => Some v | None => tag_lookup old k end) /\
+  (forall hist new k, tag_lookup (tag_history (hist ++ [new])) k
+                      = match tag_lookup new k with Some v => Some v | None => tag_lookup (tag_history hist) k end).
+Proof. split; [exact with_tags_lookup | exact tag_history_last]. Qed.
+Print Assumptions C07_retagging_last_definition_wins.
+
 (* the argument-free query selects the boundary facets of C11 (exactly the facets with a single neighbour), and the complement
    query is the set complement in [0, N) *)
 Theorem C07_boundary_default_and_complement :
